@@ -93,9 +93,10 @@ var expandableFloor = []string{
 }
 
 func checkC16(c *Ctx, r *Report) {
-	r.Rules = []string{"O7 decoder typestate (KnownFields(true) dominates the only Decode)", "O7 single parse path", "O7 no custom unmarshaler / free-form field", "F15 documented-expandable keys are expanded with the caller's mapping", "F15 scalar expansion is os.Expand only; lists via the trim-and-drop helper", "F15 every os.Expand uses the caller's mapping", "contents expanded only on the expand:true edge", "passphrase precedence", "F15-contents the value written back is TrimSpace(Expand(same field)) only"}
+	r.Rules = []string{"O7 decoder typestate (KnownFields(true) dominates the only Decode)", "O7 single parse path", "O7 no custom unmarshaler / free-form field", "F15 documented-expandable keys are expanded with the caller's mapping", "F15 scalar expansion is os.Expand only; lists via the trim-and-drop helper", "F15 every os.Expand uses the caller's mapping", "contents expanded only on the expand:true edge", "passphrase precedence", "F15-contents the value written back is TrimSpace(Expand(same field)) only", "F15-self every expansion store writes a field back from itself", "F15-overrides (tightened) the expansion visits every block of the overrides map", "O7-no-custom-unmarshal also for named non-struct field types"}
 	r.Explanation = "Typestate and coverage rules over go/ssa, go/types and the repository's reference documentation. (O7) The only decode of a value containing nfpm.Config in non-test module code runs on a yaml.v3 decoder on which KnownFields(true) — constant true — is called on a dominating path; Parse, ParseFile and ParseFileWithEnvMapping all route through it; no module type reachable from Config declares UnmarshalYAML/UnmarshalText or has an interface/yaml.Node field, and the only maps are the documented ones. (F15) The key paths that www/docs/configuration.md documents as expanding environment variables are read from the commented reference YAML, mapped to Go fields through the yaml struct tags, and each must be assigned in the expansion function from os.Expand applied to the same field with the configuration's mapping function: scalars through os.Expand alone (so a value without '$' is unchanged), lists through the helper whose loop trims and drops empty items; every os.Expand in the module takes the mapping field (or expands a constant variable name); content source/destination stores are live only when the entry's expand flag is true (abstract evaluation); each format's passphrase is first the general variable and then, guarded by non-emptiness, the format-specific one."
 	r.Explanation += " The value stored into a content entry's source/destination is strings.TrimSpace(os.Expand(<same field>)) (directly or through a module helper that is exactly that chain) - no further rewriting step."
+	r.Explanation += " (F15-self) in the expansion family a store whose value derives from configuration fields derives from the destination field. F15-overrides now requires the block to be the value of a range over the map or a lookup keyed by such a range's key. O7-no-custom-unmarshal also inspects the named types of fields, list elements and map values."
 	r.Assumptions = []string{
 		"yaml.v3 Decoder.KnownFields(true) rejects unknown keys at every nesting level of struct-typed targets",
 		"os.Expand leaves a string without '$' unchanged",
@@ -220,6 +221,45 @@ func checkO7(c *Ctx, r *Report) {
 		}
 		if !f.Exported || f.YAML.Skip {
 			continue
+		}
+		// the field's own type (a named scalar or list type, or the named
+		// element type of a list / map) must not unmarshal itself either:
+		// which YAML shapes it takes would no longer follow from its Go type,
+		// which is all the schema is generated from
+		{
+			var cands []types.Type
+			ft := f.Type
+			if p, ok := ft.Underlying().(*types.Pointer); ok {
+				ft = p.Elem()
+			}
+			cands = append(cands, ft)
+			switch u := ft.Underlying().(type) {
+			case *types.Slice:
+				cands = append(cands, u.Elem())
+			case *types.Map:
+				cands = append(cands, u.Elem())
+			}
+			for _, ct := range cands {
+				if p, ok := ct.(*types.Pointer); ok {
+					ct = p.Elem()
+				}
+				nt, ok := ct.(*types.Named)
+				if !ok || nt.Obj().Pkg() == nil || !c.isModuleType(nt) || seenT[nt] {
+					continue
+				}
+				if _, isStruct := nt.Underlying().(*types.Struct); isStruct {
+					continue // struct types are covered as owners of their fields
+				}
+				seenT[nt] = true
+				for _, recv := range []types.Type{nt, types.NewPointer(nt)} {
+					ms := types.NewMethodSet(recv)
+					for _, m := range []string{"UnmarshalYAML", "UnmarshalText", "UnmarshalJSON"} {
+						if ms.Lookup(nt.Obj().Pkg(), m) != nil {
+							r.Fail("O7-no-custom-unmarshal", nt.Obj().Name()+"."+m+" (type of "+f.GoPath+")", c.pos(nt.Obj().Pos()), "the type of a configuration field implements its own unmarshalling: the YAML shapes the parser accepts for it are no longer those of its Go type, from which the schema is generated")
+						}
+					}
+				}
+			}
 		}
 		t := f.Type
 		if p, ok := t.Underlying().(*types.Pointer); ok {
@@ -390,6 +430,25 @@ func checkF15(c *Ctx, r *Report) {
 						stores[p] = append(stores[p], storeInfo{nil, fn, pa.Of(x.Value)})
 					}
 				}
+				// the same in a helper that is handed the map
+				if prm, ok := x.Map.(*ssa.Parameter); ok {
+					idx := -1
+					for i, q := range fn.Params {
+						if q == prm {
+							idx = i
+						}
+					}
+					for _, cs := range pa.callSites(fn) {
+						if idx < 0 || idx >= len(cs.Common().Args) {
+							continue
+						}
+						if ld, ok := cs.Common().Args[idx].(*ssa.UnOp); ok && ld.Op == token.MUL {
+							if p, root := addrPath(ld.X); root != nil && types.Identical(root.Type(), cfgPtr) {
+								stores[p] = append(stores[p], storeInfo{nil, fn, pa.of(x.Value, &provCtx{call: cs.Common(), fn: fn, depth: 1})})
+							}
+						}
+					}
+				}
 			}
 		})
 	}
@@ -470,6 +529,53 @@ func checkF15(c *Ctx, r *Report) {
 	}
 	r.Floor("F15-coverage", len(ks), 21)
 
+	// every expansion writes a field back from itself: a store whose value is
+	// the expansion of a *different* configuration field (a copy-paste slip
+	// between sibling relation lists) replaces one setting by another
+	{
+		nSelf := 0
+		for _, fn := range expFns {
+			k := 0
+			forEachInstr(fn, func(in ssa.Instruction) {
+				st, ok := in.(*ssa.Store)
+				if !ok {
+					return
+				}
+				pth, root := addrPath(st.Addr)
+				if root == nil || pth == "" {
+					return
+				}
+				rt := rootTypeName(root.Type())
+				if rt != "Info" && rt != "Overridables" {
+					return
+				}
+				dst := rt + "." + strings.TrimPrefix(pth, "Info.")
+				var srcs []string
+				for _, a := range pa.Of(st.Val).list() {
+					if (strings.HasPrefix(a, "Info.") || strings.HasPrefix(a, "Overridables.")) && !strings.HasSuffix(a, ".envMappingFunc") {
+						srcs = append(srcs, a)
+					}
+				}
+				if len(srcs) == 0 {
+					return // fed from the environment alone (passphrases)
+				}
+				nSelf++
+				k++
+				self := false
+				norm := func(a string) string {
+					return strings.TrimPrefix(strings.TrimPrefix(strings.TrimPrefix(a, "Info."), "Info."), "Overridables.")
+				}
+				for _, a := range srcs {
+					if norm(a) == norm(dst) {
+						self = true
+					}
+				}
+				r.Check(self, "F15-self", fmt.Sprintf("expansion store#%d in %s writes %s back from itself", k, c.funcKey(fn), norm(dst)), c.instrPos(st),
+					fmt.Sprintf("the value stored into %s derives from %v, not from the field itself: one setting would be replaced by the expansion of another", norm(dst), srcs))
+			})
+		}
+		r.Floor("F15-self", nSelf, 12)
+	}
 	// the list helper: trims and drops empties
 	checkListHelper(c, r, expFns)
 	// overrides: relation lists and contents of every override block
@@ -504,13 +610,15 @@ func checkF15(c *Ctx, r *Report) {
 						}
 						for _, cs := range pa.callSites(fn) {
 							if idx >= 0 && idx < len(cs.Common().Args) {
-								if isOverrideElem(cs.Common().Args[idx]) {
+								if everyOverrideElem(cs.Common().Args[idx]) {
 									found = true
 								}
 							}
 						}
 					default:
-						found = true
+						if everyOverrideElem(fa.X) {
+							found = true
+						}
 					}
 				}
 			})
@@ -930,6 +1038,9 @@ func isOverrideElem(v ssa.Value) bool {
 	case *ssa.Lookup:
 		return true
 	case *ssa.Extract:
+		if lk, isLk := x.Tuple.(*ssa.Lookup); isLk && lk.CommaOk && x.Index == 0 {
+			return true // v, ok := c.Overrides[k]
+		}
 		nx, ok := x.Tuple.(*ssa.Next)
 		if !ok || nx.IsString || x.Index != 2 {
 			return false
@@ -940,6 +1051,39 @@ func isOverrideElem(v ssa.Value) bool {
 		}
 		_, isMap := rg.X.Type().Underlying().(*types.Map)
 		return isMap
+	}
+	return false
+}
+
+// everyOverrideElem: v ranges over *all* blocks of the override map - the value
+// variable of a range over the map, or a lookup keyed by the key variable of
+// such a range. A lookup keyed by anything else (the elements of a fixed list
+// of formats) visits only the blocks that list names.
+func everyOverrideElem(v ssa.Value) bool {
+	keyOfMapRange := func(k ssa.Value) bool {
+		ex, ok := k.(*ssa.Extract)
+		if !ok || ex.Index != 1 {
+			return false
+		}
+		nx, ok := ex.Tuple.(*ssa.Next)
+		if !ok || nx.IsString {
+			return false
+		}
+		rg, ok := nx.Iter.(*ssa.Range)
+		if !ok {
+			return false
+		}
+		_, isMap := rg.X.Type().Underlying().(*types.Map)
+		return isMap
+	}
+	switch x := v.(type) {
+	case *ssa.Lookup:
+		return keyOfMapRange(x.Index)
+	case *ssa.Extract:
+		if lk, isLk := x.Tuple.(*ssa.Lookup); isLk {
+			return keyOfMapRange(lk.Index)
+		}
+		return isOverrideElem(v)
 	}
 	return false
 }
